@@ -18,7 +18,7 @@ func init() {
 		Name:  "HEAP",
 		Doc:   "Dijkstra: heap index bookkeeping, relaxation pairing, visited guard, initialisation, result extraction; path reconstruction",
 		Run:   runHeap,
-		Floor: map[string]int{"HEAP-H0": 1, "HEAP-H1": 2, "HEAP-H2": 1, "HEAP-H3": 3, "HEAP-H4": 3, "HEAP-H5": 2, "HEAP-PATH": 3},
+		Floor: map[string]int{"HEAP-H0": 1, "HEAP-H1": 2, "HEAP-H2": 1, "HEAP-H3": 3, "HEAP-H4": 3, "HEAP-H5": 2, "HEAP-H6": 1, "HEAP-PATH": 3},
 	})
 }
 
@@ -377,6 +377,71 @@ func runHeap(c *Ctx) {
 	}
 
 	core.PathEnv = nil
+
+	// H6: the predecessor of an item is written only together with a lowered distance (so only while the item
+	// is unvisited and from a visited vertex): every store to the predecessor field after initialisation shares
+	// its block with a relaxation store
+	{
+		prevField := ""
+		for _, r := range relax {
+			for _, in := range r.st.Block().Instrs {
+				if st, ok := in.(*ssa.Store); ok && st != r.st {
+					if fr, ok := core.AsFieldAddr(st.Addr); ok && core.NamedOf(fr.Base.Type()) == core.NamedOf(r.base.Type()) && fr.Field != distField && fr.Field != indexField {
+						if _, isIface := st.Val.Type().Underlying().(*types.Interface); isIface {
+							prevField = fr.Field
+						}
+					}
+				}
+			}
+		}
+		stray := ""
+		nPrev := 0
+		for _, fn := range scope {
+			core.Instrs(fn, func(in ssa.Instruction) {
+				st, ok := in.(*ssa.Store)
+				if !ok {
+					return
+				}
+				fr, ok := core.AsFieldAddr(st.Addr)
+				if !ok || fr.Field != prevField || prevField == "" {
+					return
+				}
+				if p.FreshIn(st.Addr) {
+					return // initialisation of a freshly allocated item
+				}
+				nPrev++
+				paired := false
+				for _, r := range relax {
+					if r.st.Block() == st.Block() {
+						paired = true
+					}
+				}
+				if !paired {
+					stray = "store to " + fr.Field + " at " + p.InstrPos(st) + " without a lowered distance in the same step"
+				}
+			})
+		}
+		c.R.Add("HEAP-H6", "predecessor-only-with-improvement", name, p.Pos(dj.Pos()), prevField != "" && stray == "",
+			"an item's predecessor is (re)written only in the step that lowers its distance — never for ties, never for already extracted vertices",
+			ternary(stray == "", fmt.Sprintf("%d predecessor store(s), all paired", nPrev), stray))
+		// H4b: the queue items of a search are allocated by that search (nothing survives from an earlier call)
+		freshItems := true
+		nItems := 0
+		core.Instrs(dj, func(in ssa.Instruction) {
+			mu, ok := in.(*ssa.MapUpdate)
+			if !ok || core.NamedOf(mu.Value.Type()) == "" {
+				return
+			}
+			if _, isItem := core.StructOf(mu.Value.Type()); isItem != nil && core.NamedOf(mu.Value.Type()) == core.NamedOf(u.Type()) {
+				nItems++
+				if _, isAlloc := mu.Value.(*ssa.Alloc); !isAlloc {
+					freshItems = false
+				}
+			}
+		})
+		c.R.Add("HEAP-H4", "init|items-allocated-per-search", name, p.Pos(dj.Pos()), freshItems && nItems > 0,
+			"every queue item of a search is allocated by that search (distance and predecessor cannot survive from an earlier call)", fmt.Sprintf("items registered=%d fresh=%v", nItems, freshItems))
+	}
 
 	// H5: results are read from the items
 	rets := core.Returns(dj)
